@@ -8,6 +8,8 @@ export GOFLAGS=-mod=mod GOPROXY=off GOSUMDB=off GOTOOLCHAIN=local
 git -C /repo worktree add --detach "$wt" HEAD >/dev/null 2>&1 || exit 3
 trap 'git -C /repo worktree remove --force "$wt" >/dev/null 2>&1' EXIT
 mkdir -p "$wt/.seeddemo" && cp -r "$src"/. "$wt/.seeddemo/"
+# a delivery may mirror the tree (src/...): copy demo files to the same relative paths
+[ -d "$src/src" ] && cp -r "$src/src/." "$wt/src/"
 # place demo test files where demo.sh / meta.json say they belong (src/<pkg>/seeded_demo*_test.go)
 for t in $(grep -ohE 'src/[A-Za-z0-9_/.-]+/seeded_demo[A-Za-z0-9_]*(_test)?\.go' "$src/demo.sh" "$src/meta.json" 2>/dev/null | sort -u); do
   b=$(basename "$t"); [ -f "$src/$b" ] && mkdir -p "$wt/$(dirname "$t")" && cp "$src/$b" "$wt/$t"
